@@ -237,7 +237,7 @@ def outputs(ctx):
     from spyne import Application
     from spyne.server.wsgi import WsgiApplication
     from .. import valcases as V, gen as G, schemaworld as W
-    d = V.export(ctx)
+    d = V.export(ctx, 'base')          # (the dense thorough grids of C05 are about soft validation: the schema side keeps the base table)
     cases = [c for c in d['cases'] if c['valid'] and c['group'] != 'zone'] + d['outcases']      # (zone: see the note at the validators' comparison)
     fams = ('xml',) if ctx.quick else ('xml', 'soap11', 'soap12')
     apps = {}
@@ -368,7 +368,7 @@ def run(ctx):
     shutil.rmtree(wd, ignore_errors=True)
     # (c) lxml vs soft vs Valid on the facet cases
     # (the repeated-member positions are C05's business; the quick tier keeps the four structural ones here)
-    d, recs = c05.collect(ctx, with_lxml=True, families=['xml', 'soap11', 'soap12'],
+    d, recs = c05.collect(ctx, with_lxml=True, family='base', families=['xml', 'soap11', 'soap12'],
                           positions=('arg', 'field', 'array', 'attr') if ctx.quick else None)
     # (zone-less literals of a type with a declared zone: XML Schema orders values with and without a zone only partially - whether
     #  such a literal satisfies a bound that carries a zone is not decided by the schema; soft validation alone is judged there, C05)
